@@ -48,7 +48,7 @@ Print Assumptions C07_eq_vs_iseq.
 
 (* values that compare equal hash equally - for ANY leaf hashes that hash equal floats equally
    (libstdc++ does), with the instruction-wise code hash and the order-independent HashMap hash
-   of proposed_fixes/C07-*.diff *)
+   of /repo commit a94a5ab (proposed_fixes/C07-02-hash-consistency.diff) *)
 Theorem C07_veq_hash : forall (hnum : scalar -> Z) (hbool : bool -> Z) (hstr : list Z -> Z) (hop : Z -> list Z -> Z)
   (mix : Z -> Z -> Z) (seed : Z),
   (forall a b, feq a b = true -> hnum a = hnum b) ->
@@ -57,7 +57,7 @@ Theorem C07_veq_hash : forall (hnum : scalar -> Z) (hbool : bool -> Z) (hstr : l
 Proof. intros. apply teq_hash; auto. Qed.
 Print Assumptions C07_veq_hash.
 
-(* ... and with the hashes of the unrepaired source they do not: { 0 } and { -0 } are equal
+(* ... and with the hashes of the source before that commit they do not: { 0 } and { -0 } are equal
    code whose printed texts differ (d_code.h:91); two equal HashMaps whose entries iterate in
    different orders (ops_hashmap.h:41-50) *)
 Theorem C07_veq_hash_refuted_code : exists hnum hbool hstr hop mix seed a b,
